@@ -368,3 +368,33 @@ theorem nextRecords_lines (B : Nat) : ∀ (n : Nat) (p : Parser),
       | oof q => simp
 
 end Logrange.LineReader
+
+namespace Logrange.LineReader
+
+/-- while a partial line is pending, `readLine` never reports EOF (it keeps polling until a newline, a full buffer
+or the cancellation) -/
+theorem readLineGo_pending_never_eof (B : Nat) : ∀ (fuel : Nat) (s : St) (acc : Bytes), acc ≠ [] →
+    (readLineGo B fuel s acc).2 ≠ .eof
+  | 0, s, acc, _ => by simp [readLineGo]
+  | fuel+1, s, acc, h => by
+    simp only [readLineGo]
+    by_cases hc : s.cancelled = true
+    · simp [hc]
+    · simp only [hc, Bool.false_eq_true, if_false]
+      cases hr : readSlice B (sliceFuel s) s with
+      | mk s' r =>
+        cases r with
+        | line l => simp
+        | full l => simp
+        | oof => simp
+        | eof l =>
+          simp only []
+          have hne : (acc ++ l).isEmpty = false := by
+            cases acc with
+            | nil => exact absurd rfl h
+            | cons a as => rfl
+          simp only [hne, Bool.false_eq_true, if_false]
+          exact readLineGo_pending_never_eof B fuel s' (acc ++ l) (by
+            intro e; rw [e] at hne; simp at hne)
+
+end Logrange.LineReader
